@@ -481,6 +481,10 @@ func (s *Script) typeInvList(t types.Type, term string, depth int) []string {
 			lo, hi := intRange(bits, signed)
 			return []string{fmt.Sprintf("(<= %s %s)", smtInt(lo), term), fmt.Sprintf("(<= %s %s)", term, smtInt(hi))}
 		}
+		if s.strSMT && u.Info()&types.IsString != 0 {
+			// Go strings are byte sequences: every character code is at most 255
+			return []string{"(str.in_re " + term + " (re.* (re.range \"\\u{0}\" \"\\u{ff}\")))"}
+		}
 	case *types.Pointer, *types.Map, *types.Chan, *types.Signature:
 		return []string{"(>= " + term + " 0)"}
 	case *types.Slice:
